@@ -2,6 +2,8 @@ import ScenicModel.Model.PegTotal
 import ScenicModel.Model.FrontState
 import ScenicModel.Gen.PegGrammarC10
 import ScenicModel.Gen.FrontStateC10
+import ScenicModel.Model.ErrLoc
+import ScenicModel.Gen.ErrLocC10
 import Driver.Util
 /-! line protocol for the C10 models; grammar and veneer data are the ones regenerated from /repo
 
@@ -67,7 +69,24 @@ def showFrontData : String :=
   s!"names={showList frontGlobalNames ","} writes={showList (frontData.compileWrites.map toString) ","} " ++
   s!"guarded={if frontData.sfsGuarded then 1 else 0} leaks={showList ((leaks frontData).map toString) ","}"
 
+/-- errloc <N> <start|-> <end|-> <maxline> <sl:el>…  -> ok <line> <fb> | keyerror | notoken, then ` keys=<bits for 0..maxline>` -/
+def runErrLoc (n st sp mx : String) (toks : List String) : String :=
+  let optNat (w : String) : Option (Option Nat) := if w == "-" then some none else w.toNat?.map some
+  let ptok (w : String) : Option Scenic.ErrLoc.Tok := match w.splitOn ":" with
+    | [a, b] => do let a ← a.toNat?; let b ← b.toNat?; pure ⟨a, b⟩
+    | _ => none
+  match n.toNat?, optNat st, optNat sp, mx.toNat?, toks.mapM ptok with
+  | some N, some s, some e, some m, some h =>
+    let o := match Scenic.ErrLoc.build errLocData N h s e with
+      | .ok l fb => s!"ok {l} {if fb then 1 else 0}"
+      | .keyError => "keyerror"
+      | .noToken => "notoken"
+    let bits := String.ofList ((List.range (m + 1)).map fun l => if Scenic.ErrLoc.known errLocData N h l then '1' else '0')
+    s!"{o} keys={bits}"
+  | _, _, _, _, _ => "bad-op"
+
 def handle : List String → String
+  | "errloc" :: n :: st :: sp :: mx :: toks => runErrLoc n st sp mx toks
   | ["frontdata"] => showFrontData
   | "front" :: g :: o :: toks => runFront g o toks
   | "peg" :: toks => runPeg toks
